@@ -1,6 +1,7 @@
 package main
 
 import (
+	"go/token"
 	"fmt"
 	"go/types"
 	"strings"
@@ -126,7 +127,7 @@ func c08ErrDiscipline(c *Ctx, a *sketchAnchors) {
 			continue
 		}
 		nfn++
-		paths, complete := exec(c, f, nil, 2)
+		paths, complete := execPlain(c, f, nil, 2) // every reachable function, helpers included, is analysed on its own: no interprocedural inlining
 		if !complete {
 			c.R.undecided(rule, "paths/"+shortFn(f), shortFn(f), c.fpos(f), "path enumeration completes", fmt.Sprintf("more than %d paths", len(paths)))
 			continue
@@ -537,7 +538,7 @@ func c08ItemLoops(c *Ctx, a *sketchAnchors) {
 		}
 	}
 	nloops := 0
-	for _, f := range fns {
+	for _, f := range withNewHelpers(fns...) {
 		tc := newTermCtx(c.P)
 		// the decoded item counts: first results of DecodeUvarint64 calls
 		for li, comp := range loopSCCs(f) {
@@ -590,6 +591,75 @@ func c08ItemLoops(c *Ctx, a *sketchAnchors) {
 		}
 	}
 	c.R.floor(rule, "item loops in bin decoders", nloops, 5)
+	c08BatchSizes(c, rule, withNewHelpers(fns...))
+}
+
+// c08BatchSizes: a decoder that consumes the announced items in batches of min(remaining, room) and then
+// subtracts the batch from what remains relies on room ≥ 0 — with a negative room the remaining count GROWS and
+// the decoder reads past the block. room = A − len(x) is non-negative when A is cap(x) or max(cap(x), …)
+// (cap(x) ≥ len(x) always); any other A is not accepted.
+func c08BatchSizes(c *Ctx, rule string, fns []*ssa.Function) {
+	isMinMax := func(call *ssa.Call, name string) bool {
+		switch v := call.Common().Value.(type) {
+		case *ssa.Builtin:
+			return v.Name() == name
+		case *ssa.Function:
+			return v.Name() == name && inModule(v)
+		}
+		return false
+	}
+	var dominatesLen func(v ssa.Value, x string, tc *TermCtx, depth int) bool
+	dominatesLen = func(v ssa.Value, x string, tc *TermCtx, depth int) bool {
+		if depth > 4 {
+			return false
+		}
+		if call, ok := v.(*ssa.Call); ok {
+			if b, isB := call.Common().Value.(*ssa.Builtin); isB && b.Name() == "cap" && tc.Of(call.Common().Args[0]).unver().Key() == x {
+				return true
+			}
+			if isMinMax(call, "max") {
+				for _, a := range call.Common().Args {
+					if dominatesLen(a, x, tc, depth+1) {
+						return true
+					}
+				}
+			}
+		}
+		return false
+	}
+	n := 0
+	for _, f := range fns {
+		tc := newTermCtx(c.P)
+		nth := 0
+		for _, b := range f.Blocks {
+			for _, in := range b.Instrs {
+				call, ok := in.(*ssa.Call)
+				if !ok || !isMinMax(call, "min") {
+					continue
+				}
+				for _, a := range call.Common().Args {
+					sub, ok := a.(*ssa.BinOp)
+					if !ok || sub.Op != token.SUB {
+						continue
+					}
+					lenCall, ok := sub.Y.(*ssa.Call)
+					if !ok {
+						continue
+					}
+					if bi, isB := lenCall.Common().Value.(*ssa.Builtin); !isB || bi.Name() != "len" {
+						continue
+					}
+					x := tc.Of(lenCall.Common().Args[0]).unver().Key()
+					n++
+					nth++
+					ok = dominatesLen(sub.X, x, tc, 0)
+					c.R.check(ok, rule, fmt.Sprintf("%s/batch-room#%d/non-negative", shortFn(f), nth), shortFn(f), c.ipos(sub),
+						"the room of a batch, A − len(x), has A = cap(x) or max(cap(x), …): never negative, so the remaining item count only shrinks", "A = "+tc.Of(sub.X).Key())
+				}
+			}
+		}
+	}
+	c.R.count("batch_room_subtractions", n)
 }
 
 // blockReturnsErr: block (possibly through jumps) ends in a return whose last result is a non-nil error value.
